@@ -352,9 +352,22 @@ class NegateExpression(UnaryExpression):
             AddExpression,
             SubtractExpression,
         )
-        if isinstance(inner, binary_types):
+        if isinstance(inner, binary_types) or self._minus_would_rebind(f"{inner}"):
             inner = f"({inner})"
         return self.with_color("-{}".format(inner))
+
+    @staticmethod
+    def _minus_would_rebind(text: str) -> bool:
+        """Return True if writing a minus sign directly before the given text would
+        not read back as the negation of it. A second minus ("--x") is not valid input,
+        and a minus before a literal belongs to the literal, so "-2^x" is "(-2)^x" and
+        "-3!" is "(-3)!" rather than the negation of "2^x" or "3!"."""
+        if text.startswith("-"):
+            return True
+        end = 0
+        while end < len(text) and (text[end].isdigit() or text[end] == "."):
+            end += 1
+        return end > 0 and text[end : end + 1] in ("^", "!")
 
     def to_math_ml_fragment(self) -> str:
         """Convert this single node into MathML."""
